@@ -433,6 +433,18 @@ func init() {
 			}})
 		}
 		us = append(us, core.Unit{Name: "verbose-logging", Weight: 40, Run: func(c *core.Ctx) {
+			// the seven long shapes at 70 000 octets, metered for every message that dispatches
+			// (a scan that does work proportional to the rest of the input per element)
+			for mi, def := range msgs {
+				for shape := 0; shape < 7; shape++ {
+					if !c.Thorough() && (mi+shape)%2 == 1 && shape != 0 {
+						continue
+					}
+					ep := entryFor(def, mi)
+					c.Do(&core.Case{Oracle: "meter", Target: "nas.Message." + epNames[ep], B: [][]byte{longInput(c.R, def, shape, 70000)}, I: []int64{ep}})
+					c.Count("meter_long_inputs", 1)
+				}
+			}
 			for mi, def := range msgs {
 				other := refcodec.RandomPlan(msgs[(mi+1)%len(msgs)], c.R, 1, 3).Bytes()
 				for i := 0; i < c.Pick(150, 3000); i++ {
@@ -569,7 +581,9 @@ func init() {
 						b = pl.Bytes()
 					case 5:
 						if i%60 == 5 {
-							b = longInput(c.R, def, i/60, []int{5000, 16000, 70000, 1713, 65530}[(i/60)%5])
+							// every long shape with every size over the rounds (the two indices
+							// run with coprime periods)
+							b = longInput(c.R, def, i/60%7, []int{5000, 16000, 70000, 1713, 65530}[(i/60+mi)%5])
 						} else {
 							b = append(refcodec.MinimalBody(def, c.R)[:def.HeaderLen()], c.R.Bytes(c.R.Intn(65))...)
 						}
